@@ -3,9 +3,9 @@
 use super::Mesh;
 use crate::{Point3, Result};
 #[cfg(not(feature = "verif"))]
-use std::collections::{HashMap, HashSet};
+use std::collections::HashMap;
 #[cfg(feature = "verif")]
-use crate::verif::{HashMap, HashSet};
+use crate::verif::HashMap;
 
 pub struct MeshEdges<'a> {
     /// The original mesh associated with the edge structure
@@ -138,29 +138,54 @@ pub fn unique_edges(all_edges: &[[u32; 2]]) -> Vec<([u32; 2], usize)> {
     unique_count
 }
 
-fn boundary_loops(boundary_map: HashMap<u32, u32>) -> Vec<Vec<u32>> {
+/// Walks the directed boundary edges into closed vertex loops, using every edge exactly once. A
+/// vertex may have several boundary edges (faces touching only at that vertex), and on a mesh with
+/// inconsistent winding an edge may have to be followed against its direction.
+fn boundary_loops(boundary_edges: Vec<[u32; 2]>) -> Vec<Vec<u32>> {
+    // For each vertex, the boundary edges that touch it as (edge index, other vertex, is outgoing)
+    let mut touching: HashMap<u32, Vec<(usize, u32, bool)>> = HashMap::new();
+    for (i, e) in boundary_edges.iter().enumerate() {
+        touching.entry(e[0]).or_default().push((i, e[1], true));
+        touching.entry(e[1]).or_default().push((i, e[0], false));
+    }
+
+    let mut used = vec![false; boundary_edges.len()];
     let mut all_loops = Vec::new();
-    let mut working = Vec::new();
-    let mut queue: HashSet<u32> = boundary_map.keys().copied().collect();
 
-    while !queue.is_empty() {
-        #[cfg(feature = "verif")]
-        crate::verif::tick();
-        if let Some(last_id) = working.last() {
-            let next_id = boundary_map[last_id];
-            queue.remove(&next_id);
-
-            if *working.first().unwrap() == next_id {
-                working.reverse();
-                all_loops.push(working);
-                working = Vec::new();
-            } else {
-                working.push(next_id);
-            }
-        } else {
-            let start_id = *queue.iter().next().unwrap();
-            working.push(start_id);
+    for start_edge in 0..boundary_edges.len() {
+        if used[start_edge] {
+            continue;
         }
+
+        used[start_edge] = true;
+        let start_id = boundary_edges[start_edge][0];
+        let mut working = vec![start_id];
+        let mut current = boundary_edges[start_edge][1];
+
+        while current != start_id {
+            #[cfg(feature = "verif")]
+            crate::verif::tick();
+            working.push(current);
+
+            // Prefer an unused outgoing edge, otherwise follow an unused incoming edge backwards
+            let options = &touching[&current];
+            let next = options
+                .iter()
+                .find(|(i, _, out)| *out && !used[*i])
+                .or_else(|| options.iter().find(|(i, _, _)| !used[*i]));
+
+            match next {
+                Some((i, other, _)) => {
+                    used[*i] = true;
+                    current = *other;
+                }
+                // Cannot happen while every vertex has an even number of boundary edges
+                None => break,
+            }
+        }
+
+        working.reverse();
+        all_loops.push(working);
     }
 
     all_loops
@@ -190,7 +215,7 @@ fn identify_edges(faces: &[[u32; 3]]) -> Result<(Vec<[u32; 2]>, Vec<[u32; 3]>, V
         .collect();
 
     // Let's remap the face edges to the unique edges and build the boundary map at the same time
-    let mut boundary_map = HashMap::new();
+    let mut boundary_edges = Vec::new();
     let mut face_edges = Vec::new();
     for face_chunk in direct_edges.chunks(3) {
         let i0 = to_unique_index[&edge_key(&face_chunk[0])];
@@ -199,17 +224,17 @@ fn identify_edges(faces: &[[u32; 3]]) -> Result<(Vec<[u32; 2]>, Vec<[u32; 3]>, V
         face_edges.push([i0 as u32, i1 as u32, i2 as u32]);
 
         if unique_edge_count[i0].1 == 1 {
-            boundary_map.insert(face_chunk[0][0], face_chunk[0][1]);
+            boundary_edges.push(face_chunk[0]);
         }
         if unique_edge_count[i1].1 == 1 {
-            boundary_map.insert(face_chunk[1][0], face_chunk[1][1]);
+            boundary_edges.push(face_chunk[1]);
         }
         if unique_edge_count[i2].1 == 1 {
-            boundary_map.insert(face_chunk[2][0], face_chunk[2][1]);
+            boundary_edges.push(face_chunk[2]);
         }
     }
 
-    let loops = boundary_loops(boundary_map);
+    let loops = boundary_loops(boundary_edges);
     let edges = unique_edge_count.iter().map(|(edge, _)| *edge).collect();
 
     Ok((edges, face_edges, loops))
